@@ -1218,7 +1218,7 @@ Section Sem.
       apply andb_prop in Hwf. destruct Hwf as [Hwf Hbody]. apply andb_prop in Hwf. destruct Hwf as [Hwf Hhl].
       apply andb_prop in Hwf. destruct Hwf as [Hwf Hsort]. apply andb_prop in Hwf. destruct Hwf as [Hwf Hgrp].
       apply andb_prop in Hwf. destruct Hwf as [Hwf Hval]. apply andb_prop in Hwf. destruct Hwf as [Hd Hset].
-      apply Nat.ltb_lt in Hd.
+      apply Nat.leb_le in Hd.
       set (off := length pre + length lit).
       set (l := loop_rec env depth off set val group sort (length (print_nodes body))).
       set (head := loop_head set val group sort).
